@@ -223,9 +223,8 @@ CloseBegin ==
   /\ own' = [c \in C |-> IF own[c] = "yes" THEN "aborted" ELSE own[c]]
   /\ comp' = [c \in C |-> IF comp[c] = "owned" THEN "aborted" ELSE comp[c]]
   /\ UNCHANGED <<site, fault, gs, gen, closeDone, conn, ncyc, nref, cur, cancelled, pc, cgen, aid, narr, wf, nils, nilg, npub, pubmix>>
-\* time passes beyond every STUN / TURN timeout (only when the driver holds no gate)
+\* time passes beyond every STUN / TURN timeout (a wind-down point if the driver holds no gate)
 Settle ==
-  /\ \A c \in C : pc[c] # "gate"
   /\ LET refail == conn = "Checking" /\ ~closing     \* checks restarted by Restart fail again
          base == IF refail THEN RelRes ELSE res IN
        /\ res' = [c \in C |-> IF pc[c] = "flight" THEN TimeoutOf(base[c]) ELSE base[c]]
@@ -251,6 +250,7 @@ Second(e) == \* what may follow immediately, without letting the agent quiesce
   CASE e.a = "Reply" -> {"Restart", "Close"} [] e.a = "Gather" -> {"Gather", "Restart", "Close"} [] OTHER -> {}
 LastEv == hist[Len(hist)]
 Useful(e) == \* prune sequences that add nothing: Settle only when something can time out or just before the end
+  /\ (e.a = "Settle" => \A c \in C : pc[c] # "gate")
   /\ (e.a = "Settle" => (closing /\ \A c \in C : pc[c] # "gate") \/ (\E c \in C : pc[c] = "flight") \/ (gen > 0 /\ Len(hist) > 0 /\ LastEv.a # "Settle"))
 EnvQ ==
   /\ ~fin /\ nenv < MaxEnv
